@@ -33,7 +33,19 @@ def main():
             if mode == "shrink":
                 res = mod.shrink(run["case"], extra)
             else:
-                case = run["case"] if "case" in run else mod.gen_case(run["seed"], extra)
+                if "case" in run:
+                    case = run["case"]
+                else:
+                    try:
+                        case = mod.gen_case(run["seed"], extra)
+                    except Exception:  # noqa
+                        # a generator fault costs this run only; it is counted in the evidence, never a verdict
+                        rec["outcome"] = "gen_error"
+                        rec["trace"] = traceback.format_exc()[-1500:]
+                        rec["wall_s"] = round(time.time() - t0, 4)
+                        out.write(json.dumps(rec, default=str) + "\n")
+                        out.flush()
+                        continue
                 res = mod.run_case(case, extra)
                 if res.get("outcome") == "violation" or extra.get("keep_case") or run.get("keep_case"):
                     res["case"] = case
